@@ -3,6 +3,8 @@
 -/
 import BLDFM.Generated.Tables
 import BLDFM.Cache
+import BLDFM.CacheProto
+import BLDFM.Dtype
 
 namespace BLDFM.Bridge
 
@@ -40,6 +42,21 @@ keys both call sites on the resolved halo, writes atomically and guards the load
 theorem cache_cfg_table :
     (∀ f ∈ BLDFM.Fld.determining, f ∈ cacheCfg.keyFields) ∧ cacheCfg.haloResolvedAtGet = true ∧
     cacheCfg.haloResolvedAtPut = true ∧ cacheCfg.atomicWrite = true ∧ cacheCfg.guardedLoad = true := by decide
+
+/-- C15 (concurrency): the write protocol read off the code is the one `Proofs/C15b.lean` proves safe under every
+interleaving: temporary file named after key AND pid, renamed onto the entry, nothing removed by the constructor /
+`get`, guarded load -/
+theorem proto_cfg_table :
+    protoCfg = { atomicWrite := true, tempPerProcess := true, initRemovesTemps := false, guardedLoad := true } := by decide
+
+/-- C19 dtype clause: every stability helper allocates a FLOAT result (`np.zeros_like(zm, dtype=float)`), so that
+`Proofs/C19c.lean` (`helpers_dtype_free`) applies: integer-typed heights / lengths give the same values as floats -/
+theorem km_alloc_table :
+    kmAlloc = [("_phiM", .float), ("_phiC", .float), ("_psiM", .float), ("_nParam", .float)] := by decide
+
+/-- C20 dtype clause: the arrays `get_source_area` allocates take their type from the cumulative sums of `f`, never
+from the base field `g` -/
+theorem source_area_alloc_table : sourceAreaAlloc = [("M_shifted", .float), ("g_rescaled", .float)] := by decide
 
 /-- C19: `estimateZ0` — raw roughness length, outlier removal, and the 1-degree bins with the wrapped ±half-window
 median (wrap thresholds 90 / 270, inclusive lower and exclusive upper edge), as modelled by `z0Wrap` / `z0InWindow` -/
